@@ -43,6 +43,11 @@ OPS = {
 PERMANENT = frozenset([-32700, -32600, -32601, -32602, -32000, -32003, -32005, -32006, -32007, -32008])
 
 
+# values whose JSON text is valid but unusual: a number beyond the range of a double (parsers that accept it give infinity),
+# a string with an escaped lone surrogate (what json.dumps emits for a surrogateescape'd file name)
+EXOTIC: Dict[str, Any] = {"bigexp": float("inf"), "lone-surrogate": "r\udce9sum\udce9.txt", "negexp": float("-inf")}
+
+
 def reply_for(step: Dict[str, Any], req: Dict[str, Any]) -> List[Dict[str, Any]]:
     msgs: List[Dict[str, Any]] = []
     for i in range(step.get("notifs", 0)):
@@ -57,6 +62,8 @@ def reply_for(step: Dict[str, Any], req: Dict[str, Any]) -> List[Dict[str, Any]]
         res = valid_result_for(step["op"]) or {}
         res = dict(res)
         res["x-extra"] = step.get("payload", {})
+        if step.get("exotic"):
+            res["x-exotic"] = EXOTIC[step["exotic"]]
         msgs.append({"jsonrpc": "2.0", "id": rid, "result": res})
     return msgs
 
@@ -100,8 +107,14 @@ def run_carrier(carrier: str, steps: List[Dict[str, Any]], client_fn: Callable) 
     cur: Dict[str, Any] = {"cuts": [], "spell": {}}
 
     def dumps(m: Any) -> str:
-        # how the peer's serialiser happens to spell JSON: compact, or with a space after ':' and ','
-        return json.dumps(m, ensure_ascii=False, separators=(",", ":") if cur["spell"].get("compact") else None)
+        # how the peer's serialiser happens to spell JSON: compact or with a space after ':' and ','; members in insertion
+        # order or sorted; non-ASCII raw or escaped
+        ex = cur.get("exotic")
+        text = json.dumps(m, ensure_ascii=bool(cur["spell"].get("ascii")) or ex == "lone-surrogate", separators=(",", ":") if cur["spell"].get("compact") else None,
+                          sort_keys=bool(cur["spell"].get("sorted")))
+        if ex in ("bigexp", "negexp"):
+            text = text.replace("-Infinity", "-1e400").replace("Infinity", "1e400")
+        return text
 
     def sse_block(m: Any, legacy: bool) -> str:
         # how the peer spells an event: with or without the optional space after the colon, with or without the event
@@ -119,6 +132,7 @@ def run_carrier(carrier: str, steps: List[Dict[str, Any]], client_fn: Callable) 
         counter["n"] += 1
         cur["cuts"] = steps[i].get("cuts", []) if i < len(steps) else []
         cur["spell"] = steps[i].get("spell", {}) if i < len(steps) else {}
+        cur["exotic"] = steps[i].get("exotic") if i < len(steps) else None
         if i >= len(steps):
             return [{"jsonrpc": "2.0", "id": req["id"], "result": {}}]
         return reply_for(steps[i], req)
@@ -225,7 +239,7 @@ def check(case: Dict[str, Any]) -> Outcome:
         carriers = [c for c in carriers if c != "sse"]
     nonascii = any(any(ord(ch) > 0x7E for ch in json.dumps([s.get("text", ""), s.get("payload", {})], ensure_ascii=False)) for s in steps)
     out.nontrivial = any(s.get("notifs", 0) for s in steps) or nonascii or any(s["reply"] != "result" for s in steps) or any(s.get("cuts") for s in steps) or any(isinstance(s.get("id"), int) for s in steps)
-    out.classes = (f"pass:{mode}", f"steps:{len(steps)}", f"carriers:{len(carriers)}") + (("notifs",) if any(s.get("notifs", 0) for s in steps) else ()) + (("errors",) if any(s["reply"] == "error" for s in steps) else ()) + (("null-id-error",) if any(s["reply"] == "error-null-id" for s in steps) else ()) + (("segmented",) if any(s.get("cuts") for s in steps) else ()) + (("falsy-id",) if any(s.get("id") in (0, "") and not isinstance(s.get("id"), bool) for s in steps) else ()) + tuple(sorted({"spelling:" + k_ for s in steps for k_ in s.get("spell", {})})) + (("legacy-sse-answers-in-the-post-reply",) if any(s.get("sse_order") == "200-reply" for s in steps) else ())
+    out.classes = (f"pass:{mode}", f"steps:{len(steps)}", f"carriers:{len(carriers)}") + (("notifs",) if any(s.get("notifs", 0) for s in steps) else ()) + (("errors",) if any(s["reply"] == "error" for s in steps) else ()) + (("null-id-error",) if any(s["reply"] == "error-null-id" for s in steps) else ()) + (("segmented",) if any(s.get("cuts") for s in steps) else ()) + (("falsy-id",) if any(s.get("id") in (0, "") and not isinstance(s.get("id"), bool) for s in steps) else ()) + tuple(sorted({"spelling:" + k_ for s in steps for k_ in s.get("spell", {})})) + tuple(sorted({"json-value:" + s["exotic"] for s in steps if s.get("exotic")})) + (("legacy-sse-answers-in-the-post-reply",) if any(s.get("sse_order") == "200-reply" for s in steps) else ())
 
     if mode == "A":
         reqs = [{"jsonrpc": "2.0", "id": s["id"], "method": s["op"], "params": {"p": s.get("text", "")}} for s in steps]
@@ -404,7 +418,9 @@ def cases(draw, mode: str):
         if s["sse_order"] == "200-reply" and s["notifs"] > 3:
             s["notifs"] = 3
         if draw(st.integers(0, 2)) == 0:
-            s["spell"] = {k_: True for k_ in draw(st.lists(st.sampled_from(["compact", "nospace", "untyped", "crlf"]), max_size=3, unique=True))}
+            s["spell"] = {k_: True for k_ in draw(st.lists(st.sampled_from(["compact", "nospace", "untyped", "crlf", "sorted", "ascii"]), max_size=3, unique=True))}
+        if s["reply"] == "result" and draw(st.integers(0, 5)) == 0:
+            s["exotic"] = draw(st.sampled_from(sorted(EXOTIC)))
         if mode == "A":
             s["id"] = draw(st.one_of(st.sampled_from([f"r{k}", f"{100 + k}", f"é{k}", 0, "", 7, "7", "0"]), st.integers(1, 2**53).map(lambda v, k=k: v * 8 + k)))
         steps.append(s)
@@ -460,8 +476,8 @@ def job_spellings(col: Collector, seed: int, tier: str) -> None:
     import itertools as _it
 
     text = "a: b, c:d \u00e9"
-    for r in range(5):
-        for combo in _it.combinations(["compact", "nospace", "untyped", "crlf"], r):
+    for r in range(7):
+        for combo in _it.combinations(["compact", "nospace", "untyped", "crlf", "sorted", "ascii"], r):
             for order in ("202-first", "event-first", "200-reply"):
                 for mode in ("A", "B"):
                     steps = [{"op": "tools/call", "notifs": 2, "text": text, "payload": {"k: v": text}, "reply": "result", "sse_order": order, "spell": {k_: True for k_ in combo}},
@@ -471,7 +487,14 @@ def job_spellings(col: Collector, seed: int, tier: str) -> None:
                         steps = [dict(st_, id=[f"r{k}", k + 5][k % 2]) for k, st_ in enumerate(steps)]
                     case = {"steps": steps, "pass": mode}
                     col.record(case, check(case))
-    col.exhaustive_parts.append("16 spelling combinations x 3 placements of the legacy server's answer x both passes")
+    for ex in sorted(EXOTIC):
+        for order in ("202-first", "200-reply"):
+            for combo in ((), ("ascii", "compact"), ("sorted", "untyped")):
+                steps = [{"op": "tools/list", "notifs": 0, "text": "t", "payload": {}, "reply": "result", "sse_order": order, "exotic": ex, "spell": {k_: True for k_ in combo}, "id": "x1"},
+                         {"op": "ping", "notifs": 0, "text": "", "payload": {}, "reply": "result", "sse_order": "202-first", "id": 2}]
+                case = {"steps": steps, "pass": "A"}
+                col.record(case, check(case))
+    col.exhaustive_parts.append("64 spelling combinations x 3 placements of the legacy server's answer x both passes; 3 valid-but-unusual JSON values (1e400, -1e400, escaped lone surrogates) x 2 placements x 3 spellings")
 
 
 JOBS = {"hyp": job_hyp, "cuts": job_cuts, "spellings": job_spellings}
